@@ -428,6 +428,7 @@ def r3_text(ck, F, tag, enc):
         top, got_digits, got_names, other_accept = extract(ty) if ty == LV else filter_tables
         if not ck.anchor("C19.R3", "FromStr for " + short, top):
             continue
+        delegated = False
         if ty == LV and not got_digits and not got_names:
             # accepted idiom: Level::from_str delegating to LevelFilter::from_str and keeping the Some(level) results
             deleg = [t for x in [top] + F.closures_of(top) for bb, t in x.calls()
@@ -442,11 +443,44 @@ def r3_text(ck, F, tag, enc):
                         if (a.get("const") or {}).get("fn") == LF + "::into_level":
                             into.append(t)
             if deleg and into:
+                delegated = True
                 _, fd, fn_, fo = filter_tables
                 got_digits = {k: v for k, v in fd.items() if v != "OFF"}
                 got_names = {k: v for k, v in fn_.items() if v != "OFF"}
                 other_accept = list(fo)
                 ck.note("FromStr for Level delegates to LevelFilter::from_str + into_level: its table is derived from the filter's")
+        # what the tables are looked up with is the input itself: a trimmed, sliced or re-cased copy would make the parser
+        # accept spellings outside the documented set ("anything else is rejected")
+        subj_bad = []
+        nsubj = 0
+        if not delegated:
+            for x in [top] + F.closures_of(top):
+                for bb, t in x.calls():
+                    c = t["callee"]
+                    pth = c.get("path") or ""
+                    is_test = (pth.startswith("core::str::<impl str>::") or (c.get("trait") == "core::str::traits::FromStr")
+                               or (pth.endswith("PartialEq::eq") and len(t["argv"]) == 2 and (t["argv"][1].get("const") or {}).get("ty") == "&str"))
+                    if not is_test or not t["argv"]:
+                        continue
+                    nsubj += 1
+                    o = x.origin(t["argv"][0])
+                    good = False
+                    if x is top:
+                        good = o[0] == "arg" and o[1] == 1 and not o[2]
+                    elif o[0] == "arg" and o[1] == 1 and len(o[2]) == 1 and "f" in o[2][0]:
+                        for i, j, st in top.stmts():
+                            a = st.get("rv", {}).get("agg") if st["k"] == "assign" else None
+                            if a and a.get("closure") == x.path and o[2][0]["f"] < len(st["rv"]["ops"]):
+                                oo = top.origin(st["rv"]["ops"][o[2][0]["f"]])
+                                good = oo[0] == "arg" and oo[1] == 1 and not oo[2]
+                    if not good:
+                        subj_bad.append("%s at %s" % (pth.rsplit("::", 1)[-1], where(t["sp"])))
+        k = "%s: every text test and number parse reads the input string itself" % short
+        if subj_bad:
+            ck.bad("C19.R3", k, where(top.raw["sp"]), "the subject of %s is derived from the input (trimmed / sliced / converted) rather than the input: "
+                   "spellings outside the documented set are accepted" % "; ".join(subj_bad), fn=top.path)
+        elif nsubj:
+            ck.ok("C19.R3", k, fn=top.path, detail=nsubj)
         # the numeric closure must be fed by `usize::from_str(s)` of the whole input and the name closure by s
         for d, n in digits.items():
             k = "%s parses %d" % (short, d)
